@@ -97,9 +97,9 @@ Lemma live_frame s s' k p :
 Proof. unfold live. now intros ->. Qed.
 
 Lemma track_step cf n k p l s s' :
-  Inv cf s -> track cf n k p s -> step cf l s = Ok s' -> track cf n k p s'.
+  Inv cf s -> QInv cf s -> track cf n k p s -> step cf l s = Ok s' -> track cf n k p s'.
 Proof.
-  intros I (Hm & Hi & T) H.
+  intros I Q (Hm & Hi & T) H.
   pose proof (step_mono _ _ _ _ I H) as Hmono.
   split; [now apply Hmono|]. split; auto.
   destruct T as [T|T]; [left; eapply gone_mono; eauto|].
@@ -144,14 +144,25 @@ Proof.
     destruct T2 as [T2 _]. pose proof (i_keys _ _ I) as Hk.
     destruct (selfref cf); [now apply Hk|now apply arena_keys_in].
   - (* A_remove *)
+    destruct (st_inflight s) as [pf|] eqn:Ef.
+    { assert (E : s' = s).
+      { unfold a_remove in H. rewrite Ef in H. destruct (st_a s) as [|[|]|]; now inversion H. }
+      subst s'. right. exact T. }
     destruct (st_a s) as [|[|k0 rest]|] eqn:Ea.
     + unfold a_remove in H. rewrite Ea in H. inversion H; subst. right. rewrite Ea. exact T.
-    + unfold a_remove in H. rewrite Ea in H. inversion H; subst; clear H. right. cbn.
+    + unfold a_remove in H. rewrite Ea, Ef in H. inversion H; subst; clear H. right. cbn.
       destruct T as [T|[T|T]]; [tauto|tauto|].
       destruct T as (_ & _ & [T|(cur & T & Hin)]); [congruence|].
       inversion T; subst. destruct Hin.
-    + destruct (a_remove_spec _ _ _ _ I Ea) as (_ & Hi0 & p0 & Hp0 & Hd0 & E).
+    + destruct (a_remove_spec _ _ _ _ I Ea Ef) as (Hi0 & p0 & Hp0 & Hd0 & E).
       rewrite E in H. inversion H; subst; clear H.
+      (* the unused-ring is not full while something is occupied: the queue bound *)
+      assert (Hfull : selfref cf && ring_is_full (cap cf) (st_unused s) = false).
+      { destruct Hp0 as [Hocc0 _]. unfold QInv in Q.
+        assert (1 <= length (aorder (st_ar s))) by (destruct (aorder (st_ar s)); [destruct Hocc0|cbn; lia]).
+        unfold ring_is_full. replace (cap cf <=? length (st_unused s)) with false; [apply andb_false_r|].
+        symmetry. apply Nat.leb_gt. lia. }
+      rewrite Hfull.
       pose proof (i_cur _ _ I _ Ea) as [NDcur _]. cbn [map] in NDcur.
       inversion NDcur as [|? ? Hk0rest _]; subst.
       assert (Hcase : forall (T2 : live s k p),
@@ -184,6 +195,13 @@ Proof.
         inversion T3; subst. destruct Hin as [->|Hin]; auto.
         exfalso. destruct (Hcase T2) as [[_ ->]|Hne]; congruence.
     + unfold a_remove in H. rewrite Ea in H. inversion H; subst. right. rewrite Ea. exact T.
+  - (* A_push *)
+    assert (E : st_ar s' = st_ar s /\ st_newq s' = st_newq s /\ st_a s' = st_a s /\
+                st_callbacks s' = st_callbacks s).
+    { unfold a_push in H. destruct (st_inflight s); [|inversion H; subst; auto].
+      destruct (ring_push (cap cf) (st_unused s) n0); inversion H; subst; auto. }
+    destruct E as (E1 & E2 & E3 & E4). right. rewrite E2, E3, E4.
+    destruct T as [T|[T|T]]; [tauto| |]; [right; left|right; right]; intuition eauto using live_frame.
   - (* A_add *)
     destruct (st_a s) eqn:Ea;
       try (unfold a_add in H; rewrite Ea in H; inversion H; subst; right; rewrite ?Ea; exact T).
@@ -210,10 +228,11 @@ Proof.
 Qed.
 
 Lemma track_run cf n k p sched s s' :
-  Inv cf s -> track cf n k p s -> run cf sched s = Ok s' -> track cf n k p s'.
+  Inv cf s -> QInv cf s -> race_free cf sched s -> track cf n k p s ->
+  run cf sched s = Ok s' -> track cf n k p s'.
 Proof.
-  intros I T H. eapply (run_preserves cf (track cf n k p)); eauto.
-  intros l s0 s1 I0 T0 H0. eapply track_step; eauto.
+  intros I Q RF T H. eapply (run_preserves_q cf (track cf n k p)); eauto.
+  intros l s0 s1 I0 Q0 T0 H0. eapply track_step; eauto.
 Qed.
 
 Lemma is_marked_In s p : is_marked s p = true <-> In p (st_marked s).
@@ -222,18 +241,18 @@ Proof. apply existsb_eqb_In. Qed.
 Lemma prompt_removal_proof :
   forall cf sched1 s1 k p sched2 s2,
     1 <= cap cf ->
-    run cf sched1 (init cf) = Ok s1 ->
+    race_free cf sched1 (init cf) -> run cf sched1 (init cf) = Ok s1 ->
     st_a s1 = AIdle -> resolve s1 k = Ok (Some p) -> In p (st_marked s1) ->
-    run cf sched2 s1 = Ok s2 -> st_callbacks s1 < st_callbacks s2 ->
+    race_free cf sched2 s1 -> run cf sched2 s1 = Ok s2 -> st_callbacks s1 < st_callbacks s2 ->
     resolve s2 k = Ok None /\ gone s2 k.
 Proof.
-  intros cf sched1 s1 k p sched2 s2 Hc H1 Ha Hr Hm H2 Hcb.
-  destruct (res_invariant_proof cf sched1 Hc) as (s1' & E & I1). rewrite H1 in E. inversion E; subst s1'.
-  destruct (run_ok cf sched2 s1 I1) as (s2' & E2 & I2). rewrite H2 in E2. inversion E2; subst s2'.
+  intros cf sched1 s1 k p sched2 s2 Hc RF1 H1 Ha Hr Hm RF2 H2 Hcb.
+  destruct (res_invariant_proof cf sched1 Hc RF1) as (s1' & E & I1 & Q1). rewrite H1 in E. inversion E; subst s1'.
+  destruct (run_ok cf sched2 s1 I1 Q1 RF2) as (s2' & E2 & I2 & Q2). rewrite H2 in E2. inversion E2; subst s2'.
   apply (resolve_live _ _ _ _ I1) in Hr as [Hi Hl].
   assert (T : track cf (st_callbacks s1) k p s1).
   { split; [now apply is_marked_In|]. split; auto. right. right. right. auto. }
-  pose proof (track_run _ _ _ _ _ _ _ I1 T H2) as (_ & _ & T2).
+  pose proof (track_run _ _ _ _ _ _ _ I1 Q1 RF2 T H2) as (_ & _ & T2).
   assert (G : gone s2 k) by (destruct T2 as [G|[[? _]|[[? _]|[? _]]]]; auto; lia).
   split; auto. eapply gone_resolve; eauto.
 Qed.
@@ -241,21 +260,21 @@ Qed.
 Lemma prompt_removal_queued_proof :
   forall cf sched1 s1 k p sched2 s2,
     1 <= cap cf ->
-    run cf sched1 (init cf) = Ok s1 ->
+    race_free cf sched1 (init cf) -> run cf sched1 (init cf) = Ok s1 ->
     In (k, p) (st_newq s1) -> In p (st_marked s1) ->
-    run cf sched2 s1 = Ok s2 ->
+    race_free cf sched2 s1 -> run cf sched2 s1 = Ok s2 ->
     (st_callbacks s1 + 1 <= st_callbacks s2 -> resolve s2 k = Ok (Some p) \/ gone s2 k) /\
     (st_callbacks s1 + 2 <= st_callbacks s2 -> resolve s2 k = Ok None /\ gone s2 k).
 Proof.
-  intros cf sched1 s1 k p sched2 s2 Hc H1 Hq Hm H2.
-  destruct (res_invariant_proof cf sched1 Hc) as (s1' & E & I1). rewrite H1 in E. inversion E; subst s1'.
-  destruct (run_ok cf sched2 s1 I1) as (s2' & E2 & I2). rewrite H2 in E2. inversion E2; subst s2'.
+  intros cf sched1 s1 k p sched2 s2 Hc RF1 H1 Hq Hm RF2 H2.
+  destruct (res_invariant_proof cf sched1 Hc RF1) as (s1' & E & I1 & Q1). rewrite H1 in E. inversion E; subst s1'.
+  destruct (run_ok cf sched2 s1 I1 Q1 RF2) as (s2' & E2 & I2 & Q2). rewrite H2 in E2. inversion E2; subst s2'.
   assert (Hi : kidx k < cap cf).
   { apply (i_nonfree _ _ I1). unfold owned. rewrite !in_app_iff. right. left.
     unfold nq_idx. apply in_map_iff. now exists (k, p). }
   assert (T : track cf (st_callbacks s1 + 1) k p s1).
   { split; [now apply is_marked_In|]. split; auto. }
-  pose proof (track_run _ _ _ _ _ _ _ I1 T H2) as (_ & _ & T2). split.
+  pose proof (track_run _ _ _ _ _ _ _ I1 Q1 RF2 T H2) as (_ & _ & T2). split.
   - intro Hcb. destruct T2 as [G|[[? _]|[[? _]|(_ & Hl & _)]]]; auto; try lia.
     left. apply (resolve_live _ _ _ _ I2). auto.
   - intro Hcb. assert (G : gone s2 k) by (destruct T2 as [G|[[? _]|[[? _]|[? _]]]]; auto; lia).
@@ -270,10 +289,15 @@ Lemma audio_step_frame cf l s s' :
 Proof.
   intros I Ht H. destruct l; cbn in Ht; try discriminate; cbn [step] in H.
   - unfold a_start in H. destruct (st_a s); inversion H; subst; auto.
-  - destruct (st_a s) as [|[|k rest]|] eqn:Ea;
-      try (unfold a_remove in H; rewrite Ea in H; inversion H; subst; auto; fail).
-    destruct (a_remove_spec _ _ _ _ I Ea) as (_ & _ & p & _ & _ & E). rewrite E in H.
-    inversion H; subst. destruct (is_marked s p); auto.
+  - destruct (st_inflight s) eqn:Ef.
+    { unfold a_remove in H. rewrite Ef in H. destruct (st_a s) as [|[|]|]; inversion H; subst; auto. }
+    destruct (st_a s) as [|[|k rest]|] eqn:Ea;
+      try (unfold a_remove in H; rewrite Ea, ?Ef in H; inversion H; subst; auto; fail).
+    destruct (a_remove_spec _ _ _ _ I Ea Ef) as (_ & p & _ & _ & E). rewrite E in H.
+    inversion H; subst.
+    destruct (selfref cf && ring_is_full (cap cf) (st_unused s)); auto. destruct (is_marked s p); auto.
+  - unfold a_push in H. destruct (st_inflight s); [|inversion H; subst; auto].
+    destruct (ring_push (cap cf) (st_unused s) n); inversion H; subst; auto.
   - destruct (st_a s) eqn:Ea;
       try (unfold a_add in H; rewrite Ea in H; inversion H; subst; auto; fail).
     destruct (st_newq s) as [|[k p] rest] eqn:Eq.
@@ -288,13 +312,13 @@ Lemma destroyed_on_caller_proof :
     (forall p t, In (p, t) (st_destroyed s) -> t = Gameplay) /\
     NoDup (map fst (st_destroyed s)) /\
     Permutation (seq 0 (st_next s))
-                (map snd (st_newq s) ++ slot_payloads (aslots (st_ar s)) ++ st_unused s
-                     ++ map fst (st_destroyed s)) /\
+                (map snd (st_newq s) ++ slot_payloads (aslots (st_ar s))
+                     ++ (st_unused s ++ infl (st_inflight s)) ++ map fst (st_destroyed s)) /\
     (forall l s', thread_of l = Audio -> step cf l s = Ok s' ->
                   st_destroyed s' = st_destroyed s /\ st_next s' = st_next s).
 Proof.
   intros cf sched s Hc H.
-  destruct (res_invariant_proof cf sched Hc) as (s' & E & I). rewrite H in E. inversion E; subst s'.
+  pose proof (res_invariant_core_proof cf sched s Hc H) as I.
   split; [apply (i_destroyed _ _ I)|]. split; [|split; [apply (i_cons _ _ I)|]].
   - pose proof (i_cons _ _ I) as P.
     pose proof (Permutation_NoDup P (seq_NoDup _ _)) as ND.
@@ -316,8 +340,8 @@ Lemma no_stale_ids_proof :
     (forall k c', ctl_try_reserve (st_ctl s) = Ok (Reserved k c') -> forall p, ~ In (p, k) (st_log s)).
 Proof.
   intros cf sched s Hc H.
-  destruct (res_invariant_proof cf sched Hc) as (s' & E & I). rewrite H in E. inversion E; subst s'.
-  clear E. repeat split.
+  pose proof (res_invariant_core_proof cf sched s Hc H) as I.
+  repeat split.
   - intros k p Hr. apply (resolve_live _ _ _ _ I) in Hr as (Hi & [_ Hg] & Hd).
     pose proof (i_ar_log _ _ I _ _ Hi Hd) as Hin. rewrite <- Hg in Hin. now destruct k.
   - intros p p' k H1 H2. pose proof (i_log_keys _ _ I) as ND.
@@ -328,7 +352,7 @@ Proof.
     + inversion E1; subst. exfalso. apply Hn. apply in_map_iff. now exists (p', k).
     + inversion E2; subst. exfalso. apply Hn. apply in_map_iff. now exists (p, k).
     + auto.
-  - destruct (run_ok cf sched2 s I) as (s2' & E2 & I2). rewrite H2 in E2. inversion E2; subst s2'.
+  - pose proof (run_inv _ _ _ _ I H2) as I2.
     eapply gone_resolve; eauto. eapply gone_mono; eauto. eapply run_mono; eauto.
   - eapply gone_mono; eauto. eapply run_mono; eauto.
   - intros k p Hin Hr Hnq. destruct (i_log_lt _ _ I _ _ Hin) as (_ & Hi & Hle).
@@ -369,8 +393,7 @@ Lemma capacity_exact_proof :
     (res_len s = cap cf -> ctl_try_reserve (st_ctl s) = Ok ArenaFull).
 Proof.
   intros cf sched s Hc H.
-  destruct (res_invariant_proof cf sched Hc) as (s' & E & I). rewrite H in E. inversion E; subst s'.
-  now apply capacity_exact_inv.
+  apply capacity_exact_inv. eapply res_invariant_core_proof; eauto.
 Qed.
 
 (** ** non-vacuity: concrete reachable states that meet the hypotheses *)
@@ -384,7 +407,7 @@ Definition ex_sched_queued : list label := [G_reserve; G_drain_done; G_push; G_m
     interleaved with the callback that removes 0, a third create reuses slot 0 with generation 1 *)
 Definition ex_sched_reuse : list label :=
   [G_reserve; G_drain_done; G_push; A_start; A_remove; A_add; A_add; G_mark 0;
-   A_start; G_reserve; A_remove; G_drain_one; G_drain_done; A_remove; G_push; A_add; A_add;
+   A_start; G_reserve; A_remove; A_push; G_drain_one; G_drain_done; A_remove; G_push; A_add; A_add;
    G_reserve; G_drain_done; G_push; A_start; A_remove; A_remove; A_add; A_add].
 
 Lemma ex_present :
@@ -404,3 +427,71 @@ Lemma ex_reuse :
             st_destroyed s = [(0, Gameplay)] /\ res_len s = 2 /\
             ctl_try_reserve (st_ctl s) = Ok ArenaFull.
 Proof. eexists. split; [vm_compute; reflexivity|]. vm_compute. repeat split; auto. Qed.
+
+(** ** an executable check of race-freedom (used for the examples) *)
+Definition racyb (l : label) (s : state) : bool :=
+  match l, st_g s, st_unused s, st_inflight s with
+  | G_drain_done, GReserved _, [], Some _ => true
+  | _, _, _, _ => false
+  end.
+Fixpoint race_freeb (cf : cfg) (sched : list label) (s : state) : bool :=
+  match sched with
+  | [] => true
+  | l :: rest => negb (racyb l s) &&
+                 match step cf l s with Ok s' => race_freeb cf rest s' | _ => true end
+  end.
+
+Lemma race_freeb_sound cf sched s : race_freeb cf sched s = true -> race_free cf sched s.
+Proof.
+  revert s. induction sched as [|l rest IH]; intros s H; cbn [race_freeb race_free] in *; auto.
+  apply andb_true_iff in H as [H1 H2]. split.
+  - intros (-> & (k & Eg) & Eu & Ef). unfold racyb in H1. rewrite Eg, Eu in H1.
+    destruct (st_inflight s); [discriminate|congruence].
+  - intros s' E. rewrite E in H2. auto.
+Qed.
+
+Lemma ex_present_rf : race_free ex_cf ex_sched_present (init ex_cf).
+Proof. apply race_freeb_sound. vm_compute. reflexivity. Qed.
+Lemma ex_queued_rf : race_free ex_cf ex_sched_queued (init ex_cf).
+Proof. apply race_freeb_sound. vm_compute. reflexivity. Qed.
+Lemma ex_reuse_rf : race_free ex_cf ex_sched_reuse (init ex_cf).
+Proof. apply race_freeb_sound. vm_compute. reflexivity. Qed.
+
+(** ** finding F22: the race refutes the unguarded statements *)
+
+(** capacity 1: create 0; callback; drop 0; the next callback removes 0 from the arena (slot free,
+    payload in flight) — the gameplay thread now runs a whole create (reserve the freed slot, drain:
+    empty, push) — the callback pushes 0 into the unused-ring and inserts 1; drop 1; the next
+    callback removes 1 and pushes it: the ring (capacity 1) still holds 0 *)
+Definition f22_prefix : list label :=
+  [G_reserve; G_drain_done; G_push; A_start; A_remove; A_push; A_add; A_add; G_mark 0;
+   A_start; A_remove; G_reserve; G_drain_done; G_push; A_push; A_remove; A_push; A_add; A_add;
+   G_mark 1].
+Definition f22_sched : list label := f22_prefix ++ [A_start; A_remove; A_push].
+
+Lemma unused_full_refuted_proof :
+  run (mkCfg false true 1) f22_sched (init (mkCfg false true 1)) = Panic QueueFull /\
+  ~ race_free (mkCfg false true 1) f22_sched (init (mkCfg false true 1)).
+Proof.
+  assert (H : run (mkCfg false true 1) f22_sched (init (mkCfg false true 1)) = Panic QueueFull)
+    by (vm_compute; reflexivity).
+  split; auto. intro RF.
+  destruct (res_invariant_proof (mkCfg false true 1) f22_sched (le_n 1) RF) as (s & E & _).
+  congruence.
+Qed.
+
+(** the self-referential storage does not panic in that situation: it stops removing; the marked
+    resource stays (until some later create drains the ring) *)
+Lemma prompt_removal_refuted_proof :
+  let cf := mkCfg true false 1 in
+  exists s1 s2,
+    run cf f22_prefix (init cf) = Ok s1 /\ st_a s1 = AIdle /\
+    resolve s1 (mkKey 0 1) = Ok (Some 1) /\ In 1 (st_marked s1) /\
+    run cf [A_start; A_remove; A_push; A_add; A_add] s1 = Ok s2 /\
+    st_callbacks s1 < st_callbacks s2 /\ st_a s2 = AIdle /\
+    resolve s2 (mkKey 0 1) = Ok (Some 1).
+Proof.
+  cbv zeta. eexists. eexists. split; [vm_compute; reflexivity|].
+  split; [reflexivity|]. split; [reflexivity|]. split; [cbn; auto|].
+  split; [vm_compute; reflexivity|]. vm_compute. repeat split; auto.
+Qed.
